@@ -215,7 +215,17 @@ def run(chk):
 
 def sig_of(case, problems):
     p = problems[0]
-    if 'incomplete file' in p:
+    if 'yet the remote was asked' in p:
+        what = 'fetch-with-complete-copy'
+    elif 'differs from loading the served bytes' in p:
+        what = 'wrong-ontology'
+    elif 'did not succeed' in p or 'no copy at its cache location' in p:
+        what = 'healthy-load-fails'
+    elif 'clear of one type' in p:
+        what = 'clear-type'
+    elif 'omitting the release' in p:
+        what = 'latest'
+    elif 'incomplete file' in p:
         what = 'incomplete-file'
     elif p.startswith('clear('):
         what = 'clear-raises'
@@ -246,8 +256,23 @@ def shrink(chk, case):
     return cur
 
 
+def model_only(problems):
+    return all('differ from the model' in p or 'differs from the model' in p for p in problems)
+
+
 def report(chk, cases, obs, failing, limit=5):
     seen = {}
+    # the property is evaluated directly on the real store (complete-or-absent cache files at every checkpoint, no fetch
+    # with a complete copy, the right ontology, healthy loads succeed, recovery after kills, clear exactness, greatest
+    # tag); a run that only deviates from the MODEL's step-by-step states breaks the correspondence, not the property
+    mo = [i for i in failing if model_only(failing[i])]
+    for kind in sorted({cases[i]['kind'] for i in mo}):
+        idx = [i for i in mo if cases[i]['kind'] == kind]
+        i = min(idx, key=lambda j: len(json.dumps(cases[j])))
+        chk.correspondence_break(f'C07:{kind}:model-mismatch', {'case': cases[i], 'cases_with_this_disagreement': len(idx), 'theorem': THEOREM,
+                                                                'broken': ['Corr.C07.check_scase7 / check_latest: the store model run in lock-step with the real store']},
+                                 what=f'C07:{kind}:model-mismatch: the observed store states / outcomes / fetch log differ from the model at some checkpoint on {len(idx)} cases, e.g. {json.dumps(cases[i])[:300]}')
+    failing = {i: p for i, p in failing.items() if i not in set(mo)}
     for i in sorted(failing, key=lambda j: len(json.dumps(cases[j]))):
         sig = sig_of(cases[i], failing[i])
         if sig in seen or len(seen) >= limit:
